@@ -343,7 +343,7 @@ func discTargets(r *RNG) []hotline.AccessBitmap {
 
 func init() {
 	props["C06"] = func(x *Ctx) {
-		x.rule = "creation: every pair (creator = {create-user} ∪ {i}, requested = {j}) for i, j in 0..63 on BOTH creation requests (new-user 350, multi-user editor 349), plus random pairs (requested = subset of creator ± extra bits, uniform, dense) with access fields of 0..12 bytes; after each request the account in memory and on disk (yaml parse + fresh NewYAMLAccountManager) is judged by created ⊆ creator and compared with the Lean model. disconnect: requester {22}, all, {22,23}, {} × 85 target bitmaps (zero, {23}, all, all-but-23, every single bit, random) × options {absent, 00 01, 00 02, 00 03, 00 00, 07 01, 01 00}; each on its own server, inspected 1.4 s later (connection closed?, ban list in memory and from a fresh NewBanFile, notice, reply, persistent snapshot). non-trivial = the handler reached the subset loop / the protected check; distinct = distinct (path, creator, field) / (requester, target, option)"
+		x.rule = "creation: every pair (creator = {create-user} ∪ {i}, requested = {j}) for i, j in 0..63 on BOTH creation requests (new-user 350, multi-user editor 349), two-user histories (an administrator renames / deletes / widens the creator's stored account through the real handlers while the creator stays logged in, then the creator creates an account), plus random pairs (requested = subset of creator ± extra bits, uniform, dense) with access fields of 0..12 bytes; after each request the account in memory and on disk (yaml parse + fresh NewYAMLAccountManager) is judged by created ⊆ creator and compared with the Lean model. disconnect: requester {22}, all, {22,23}, {} × 85 target bitmaps (zero, {23}, all, all-but-23, every single bit, random) × options {absent, 00 01, 00 02, 00 03, 00 00, 07 01, 01 00}; each on its own server, inspected 1.4 s later (connection closed?, ban list in memory and from a fresh NewBanFile, notice, reply, persistent snapshot). non-trivial = the handler reached the subset loop / the protected check; distinct = distinct (path, creator, field) / (requester, target, option)"
 		x.assume = []string{
 			"direct mode: handlers are called with a ClientConn built like handleNewConnection builds it; the requester's in-memory bitmap is set directly so that all 64 positions can be exercised",
 			"bcrypt at MinCost (as the code uses)",
@@ -495,6 +495,116 @@ func init() {
 			}
 			c.Nontrivial(fmt.Sprint("multi:", bmHex(creator), desc))
 			c.Dist(fmt.Sprintf("editor-multi/subrequests-%d", n))
+		}})
+		// two-user histories: an administrator renames / deletes / widens the creator's stored account through the real
+		// handlers while the creator stays logged in (its ClientConn keeps the Account it got at login); then the
+		// creator asks for an account.  The creator's privileges are those of its session.
+		x.Add(&Family{Name: "creator-account-changed", Quick: 400, Thor: 6000, Run: func(c *Case) {
+			r := c.R
+			session := bmOf(14)
+			if r.Bool() {
+				session = hotline.AccessBitmap(withBit(randBitmap(r), 14))
+			}
+			if r.Chance(10) {
+				session = hotline.AccessBitmap(withoutBit(session, 14))
+			}
+			hist := []string{"rename", "rename", "delete", "delete-user", "widen", "set-user-widen", "none"}[r.Intn(7)]
+			ts, err := newTS(TSOpt{Direct: true, Accounts: []AcctSpec{
+				{Login: "maker", Name: "Maker", Password: "", Access: hotline.AccessBitmap(maskDefined(session))},
+				{Login: "admin", Name: "Admin", Password: "", Access: allOnes()},
+			}})
+			if err != nil {
+				c.Disagree("fixture", "test server could not be built")
+				return
+			}
+			defer ts.Close()
+			mk, _ := directClientWith(ts, "maker", "10.0.0.1:1000", session)
+			ad, _ := directClientWith(ts, "admin", "10.0.0.2:1000", allOnes())
+			creatorBound := session // what a created account may hold
+			var pan any
+			switch hist {
+			case "rename":
+				_, _, pan = ts.Call(ad, mkTran(hotline.TranUpdateUser, 1, subRename("maker", "maker2", "Maker", session[:])))
+				if pan == nil && (ts.Acct.Get("maker") != nil || ts.Acct.Get("maker2") == nil) {
+					c.Disagree("fixture-rename", "the administrator's rename of the creator's account did not take effect")
+					return
+				}
+			case "delete":
+				_, _, pan = ts.Call(ad, mkTran(hotline.TranUpdateUser, 1, subDelete("maker")))
+			case "delete-user":
+				_, _, pan = ts.Call(ad, mkTran(hotline.TranDeleteUser, 1, fld(hotline.FieldUserLogin, obf("maker"))))
+			case "widen":
+				// the editor's modify branch changes the stored account only; live sessions keep their bitmap
+				_, _, pan = ts.Call(ad, mkTran(hotline.TranUpdateUser, 1, subCreateOrModify("maker", "Maker", []byte{0}, []byte{0xff, 0xff, 0xff, 0xff, 0xff, 0xff, 0xff, 0xff})))
+			case "set-user-widen":
+				// set-user also updates the live session's bitmap
+				_, _, pan = ts.Call(ad, mkTran(hotline.TranSetUser, 1, fld(hotline.FieldUserLogin, obf("maker")), fld(hotline.FieldUserName, []byte("Maker")),
+					fld(hotline.FieldUserPassword, []byte{0}), fld(hotline.FieldUserAccess, []byte{0xff, 0xff, 0xff, 0xff, 0xff, 0xff, 0xff, 0xff})))
+			}
+			if pan != nil {
+				c.Note("panic", fmt.Sprint(pan))
+				c.Disagree("fixture-history", "the administrator's request panicked")
+				return
+			}
+			if mk.Account != nil {
+				creatorBound = mk.Account.Access // set-user refreshes the session; the others leave it alone
+			}
+			if a := ts.Acct.Get("maker"); a != nil {
+				// a stored account under the session's login: its privileges are the creator's too
+				for i := 0; i < 8; i++ {
+					creatorBound[i] |= a.Access[i]
+				}
+			}
+			sessionNow := session
+			if mk.Account != nil {
+				sessionNow = mk.Account.Access
+			}
+			// the request: subset of the session, or with extra bits the session lacks, or everything
+			var req [8]byte
+			switch r.Intn(4) {
+			case 0:
+				for _, b := range bmBits(sessionNow) {
+					if r.Bool() {
+						req = withBit(req, b)
+					}
+				}
+			case 1:
+				req = allOnes()
+			case 2:
+				req = sessionNow
+				req = withBit(req, r.Intn(64))
+			default:
+				req = withBit(req, r.Intn(64))
+			}
+			which := "new"
+			if r.Chance(65) {
+				which = "editor"
+			}
+			login := "fresh-" + which
+			var t hotline.Transaction
+			var model string
+			if which == "new" {
+				t = newUserTran(7, login, "Fresh User", "pw", req[:])
+				model = c.AskS("newuser", bmHex(sessionNow), "0", hx(req[:]), "0")
+			} else {
+				t = mkTran(hotline.TranUpdateUser, 7, subCreateOrModify(login, "Fresh User", []byte("pw"), req[:]))
+				model = c.AskS("updcreate", bmHex(sessionNow), hx(req[:]), "0")
+			}
+			c.Note("history", hist)
+			c.Note("session", bmHex(sessionNow))
+			res, _, pan := ts.Call(mk, t)
+			if pan != nil {
+				c.Note("panic", fmt.Sprint(pan))
+				c.Violation("create-panic", which+": account creation panicked after the creator's account was changed ("+hist+")")
+				return
+			}
+			class := createReplyClass(res, mk)
+			obs := judgeCreated(c, ts, which+"/after-"+hist, login, creatorBound, req[:], class)
+			if hist != "widen" {
+				c.Corr("create-after-"+hist, obs, model, false)
+			}
+			c.Dist("history/" + hist + "/" + strings.SplitN(obs, " ", 2)[0])
+			c.Nontrivial(hist + ":" + which + ":" + bmHex(session) + ":" + hx(req[:]))
 		}})
 		x.Add(&Family{Name: "disconnect", Quick: 16, Thor: 32, Run: func(c *Case) {
 			// each case: one requester kind × a slice of the target list × all options, run concurrently
